@@ -229,7 +229,10 @@ where
         // Root the goal tree at a goal sample the validity checker accepts. If none is found the
         // goal tree stays empty and `solve` reports `NoSolutionFound`.
         let vc = self.validity_checker.as_ref().unwrap();
-        let mut rng = rand::rng();
+        let mut rng = self
+            .rng
+            .take()
+            .unwrap_or_else(|| Box::new(StdRng::from_os_rng()));
         for _ in 0..MAX_GOAL_SAMPLE_ATTEMPTS {
             if let Ok(goal_state) = pd.goal.sample_goal(&mut rng) {
                 if vc.is_valid(&goal_state) {
@@ -241,6 +244,7 @@ where
                 }
             }
         }
+        self.rng = Some(rng);
     }
 
     fn solve(&mut self, timeout: Duration) -> Result<Path<S>, PlanningError> {
